@@ -68,6 +68,8 @@ def configs(tier):
         add(group='explicit', d=2, q=1, T=3, mode=mode, imputer='joint', storage='batch', _cost=50)
         add(group='explicit', d=1, q=2, T=3, mode=mode, imputer='product', storage='geometric', cap=2, _cost=50)
         add(group='explicit', d=2, q=1, T=3, mode=mode, imputer='joint', storage='batch', ignored=1, _cost=50)
+        add(group='explicit', d=2, q=2, T=6 if tier == 'quick' else 9, mode=mode, imputer='default', storage='interval', cap=2,
+            alpha_value='1/4', _cost=50)
     return cfgs
 
 
